@@ -105,15 +105,25 @@ theorem setFlat_leaf_single (env : Env) (sep : Str) (cn : Option Str) (o : Bool)
     setFlat env sep (.leaf cn o k) (blank (.leaf cn o k)) [(cn, u)] = .leaf u := by
   simp [setFlat, hu]
 
-theorem arrayAnon_leaves (sep : Str) (setM : Pairs → Elem) (cn : Option Str)
-    (hcn : ∀ c, cn = some c → c ≠ []) (us : List Str) (hset : ∀ u ∈ us, setM [(cn, u)] = .leaf u) :
-    arrayAnon setM false cn (us.map (fun u => (tokKey sep cn.toList, u))) = us.map Elem.leaf := by
+theorem arrayAnon_leaves (sep : Str) (setM : Pairs → Elem) (prune : Bool) (cn : Option Str)
+    (hcn : ∀ c, cn = some c → c ≠ []) (us : List Str) (hset : ∀ u ∈ us, setM [(cn, u)] = .leaf u)
+    (hne : prune = true → ∀ u ∈ us, u ≠ []) :
+    arrayAnon setM prune cn (us.map (fun u => (tokKey sep cn.toList, u))) = us.map Elem.leaf := by
   induction us with
   | nil => simp [arrayAnon]
   | cons u us ih =>
     have ih' := ih (fun v hv => hset v (List.mem_cons_of_mem _ hv))
+      (fun hp v hv => hne hp v (List.mem_cons_of_mem _ hv))
     have hu := hset u (by simp)
-    simp only [List.map_cons, arrayAnon, Bool.false_and, Bool.false_eq_true, if_false, ih']
+    have hpe : (prune && u.isEmpty) = false := by
+      cases prune with
+      | false => rfl
+      | true =>
+        have := hne rfl u (by simp)
+        cases u with
+        | nil => exact absurd rfl this
+        | cons a as => rfl
+    simp only [List.map_cons, arrayAnon, hpe, Bool.false_and, Bool.false_eq_true, if_false, ih']
     cases cn with
     | none =>
       simp only [Option.toList, tokKey, truthy]
@@ -148,18 +158,29 @@ theorem arrayRemainder_member (x c : Str) (hc : c ≠ []) :
   have h3 : c.isEmpty = false := by cases c with | nil => exact absurd rfl hc | cons a as => rfl
   simp [h1, h2, isPrefix_append, h3]
 
-theorem arrayNamed_leaves (hs : SepSafe env sep T) (setM : Pairs → Elem) (x : Str) (cn : Option Str)
-    (hcn : ∀ c, cn = some c → c ≠ []) (us : List Str) (hset : ∀ u ∈ us, setM [(cn, u)] = .leaf u) :
-    arrayNamed setM sep false x cn (us.map (fun u => (tokKey sep (x :: cn.toList), u)))
+theorem arrayNamed_leaves (hs : SepSafe env sep T) (setM : Pairs → Elem) (prune : Bool) (x : Str)
+    (cn : Option Str)
+    (hcn : ∀ c, cn = some c → c ≠ []) (us : List Str) (hset : ∀ u ∈ us, setM [(cn, u)] = .leaf u)
+    (hne : prune = true → ∀ u ∈ us, u ≠ []) :
+    arrayNamed setM sep prune x cn (us.map (fun u => (tokKey sep (x :: cn.toList), u)))
       = us.map Elem.leaf := by
   induction us with
   | nil => simp [arrayNamed]
   | cons u us ih =>
     have ih' := ih (fun v hv => hset v (List.mem_cons_of_mem _ hv))
+      (fun hp v hv => hne hp v (List.mem_cons_of_mem _ hv))
     have hu := hset u (by simp)
+    have hpe : (prune && u.isEmpty) = false := by
+      cases prune with
+      | false => rfl
+      | true =>
+        have := hne rfl u (by simp)
+        cases u with
+        | nil => exact absurd rfl this
+        | cons a as => rfl
     rw [List.map_cons, arrayNamed_cons, ih', List.map_cons]
-    have : arrayNamed setM sep false x cn [(tokKey sep (x :: cn.toList), u)] = [Elem.leaf u] := by
-      simp only [arrayNamed, tokKey_cons]
+    have : arrayNamed setM sep prune x cn [(tokKey sep (x :: cn.toList), u)] = [Elem.leaf u] := by
+      simp only [arrayNamed, tokKey_cons, hpe]
       cases cn with
       | none =>
         simp only [Option.toList, joinSep_single, arrayRemainder_self hs x]
@@ -175,6 +196,15 @@ theorem arrayNamed_leaves (hs : SepSafe env sep T) (setM : Pairs → Elem) (x : 
         simp [hu]
     rw [this]; rfl
 
+theorem valuesNonempty_leaf (env : Env) (cn : Option Str) (o : Bool) (k : Nat) (u : Str)
+    (h : valuesNonempty env (.leaf cn o k) (.leaf u)) : u ≠ [] := by
+  unfold valuesNonempty at h
+  rw [flatten_eq_relFlat] at h
+  have hr : resolve env (.leaf cn o k) (.leaf u) = .mk cn true true u false [] := by
+    unfold resolve; rfl
+  rw [hr, relFlat_leaf cn true u [] (Or.inr rfl)] at h
+  exact h (joinPair [] (cn.toList, u)) (by simp)
+
 theorem rt_array (hs : SepSafe env sep T) (nm : Option Str) (hnm : ∀ x, nm = some x → x ≠ [])
     (o prune : Bool) (member : Schema) (hmn : ∀ c, member.name = some c → c ≠ []) :
     RT env sep (.array nm o prune member) := by
@@ -183,10 +213,14 @@ theorem rt_array (hs : SepSafe env sep T) (nm : Option Str) (hnm : ∀ x, nm = s
   | array ms =>
     simp only [Ok] at hok
     obtain ⟨hprune, ⟨cn, mo, k, hm⟩, hmem⟩ := hok
-    subst hprune; subst hm
+    subst hm
     simp only [Schema.name] at hmn
     obtain ⟨hkids, hms, hnorm⟩ := resolveList_leaves env cn mo k ms hmem
-    have hr : resolve env (.array nm o false (.leaf cn mo k)) (.array ms)
+    have hne : prune = true → ∀ u ∈ leafTexts ms, u ≠ [] := by
+      intro hp u hu
+      have hmem' : Elem.leaf u ∈ ms := by rw [hms]; exact List.mem_map_of_mem hu
+      exact valuesNonempty_leaf env cn mo k u (hprune hp _ hmem')
+    have hr : resolve env (.array nm o prune (.leaf cn mo k)) (.array ms)
         = .mk nm false true [] false (resolveList env (.leaf cn mo k) ms) := by
       unfold resolve; rfl
     rw [hr, relFlat_eq]
@@ -206,7 +240,7 @@ theorem rt_array (hs : SepSafe env sep T) (nm : Option Str) (hnm : ∀ x, nm = s
     cases nm with
     | none =>
       simp only [truthy, Bool.not_false, if_true]
-      exact congrArg Elem.array (arrayAnon_leaves sep _ cn hmn _ hset)
+      exact congrArg Elem.array (arrayAnon_leaves sep _ prune cn hmn _ hset hne)
     | some x =>
       have hx := hnm x rfl
       have htr : truthy (some x) = true := by
@@ -214,7 +248,7 @@ theorem rt_array (hs : SepSafe env sep T) (nm : Option Str) (hnm : ∀ x, nm = s
         | nil => exact absurd rfl hx
         | cons a as => rfl
       simp only [htr, Bool.not_true, Bool.false_eq_true, if_false, Option.getD_some]
-      exact congrArg Elem.array (arrayNamed_leaves hs _ x cn hmn _ hset)
+      exact congrArg Elem.array (arrayNamed_leaves hs _ prune x cn hmn _ hset hne)
   | _ => simp [Ok] at hok
 
 end Flatland.Flat.Proofs
